@@ -606,6 +606,37 @@ pub fn expand(st: &Step, c: &mut Counters) -> Vec<Step> {
             push(c, "enum:json_framing", s.into_bytes());
         }
     }
+    // the record overwritten by another well-formed record whose payload is a boundary value of the
+    // type's validity rule (group order, field prime and its neighbours, exceptional field elements)
+    if payload_len(ty) == 32 {
+        let l = refmodel::sc::l();
+        let one = refmodel::U256::ONE;
+        let mut specials: Vec<[u8; 32]> = vec![
+            l.to_le_bytes(),
+            l.sub_borrow(&one).0.to_le_bytes(),
+            l.add_carry(&one).0.to_le_bytes(),
+            l.mul_small(2).0.to_le_bytes(),
+            l.mul_small(8).0.to_le_bytes(),
+            [0u8; 32],
+            [0xff; 32],
+            refmodel::fp::Fp::ONE.neg().to_bytes(),
+            refmodel::fp::Fp::sqrt_m1().to_bytes(),
+            refmodel::fp::Fp::sqrt_m1().neg().to_bytes(),
+            refmodel::fp::Fp::ONE.to_bytes(),
+        ];
+        for k in 0..19u64 {
+            specials.push(crate::dict::p_plus(k));
+        }
+        let n0 = specials.len();
+        for i in 0..n0 {
+            let mut b = specials[i];
+            b[31] ^= 0x80;
+            specials.push(b);
+        }
+        for sp in specials {
+            push(c, "enum:boundary_payload", canonical_stream(ty, &sp, fmt));
+        }
+    }
     // SimFormat: the same record delivered at the serde data-model level
     let want = payload_len(ty) as u16;
     for shape in 0..4u8 {
